@@ -408,6 +408,15 @@ func (pc *PredCompiler) term(env *predEnv, x ast.Expr) (string, error) {
 		if tv, ok := env.info.Types[e.Fun]; ok && tv.IsType() && len(e.Args) == 1 {
 			return pc.term(env, e.Args[0])
 		}
+		// niladic accessor on a term (p.Time(), x.UnixNano()): an opaque term derived from its receiver
+		if se, ok := e.Fun.(*ast.SelectorExpr); ok && len(e.Args) == 0 {
+			if _, isFn := Callee(env.info, e).(*types.Func); isFn {
+				base, err := pc.term(env, se.X)
+				if err == nil {
+					return base + "." + se.Sel.Name + "()", nil
+				}
+			}
+		}
 	}
 	if tv, ok := env.info.Types[x]; ok && tv.Value != nil && tv.Value.Kind() != constant.Unknown {
 		return "const:" + tv.Value.ExactString(), nil
@@ -544,7 +553,9 @@ func (pc *PredCompiler) compile(env *predEnv, x ast.Expr, depth int) (*BExpr, er
 		if fi := pc.P.FuncOf(fn); fi != nil {
 			body, err := pc.ReturnPredicate(fi)
 			if err != nil {
-				return nil, err
+				// not a single-return predicate: an opaque boolean atom named after the callee and its receiver
+				name := "call:" + FuncName(fn)
+				return Atom(name), nil
 			}
 			sub := &predEnv{info: fi.Info(), bind: map[types.Object]string{}, fn: fi}
 			if fi.Decl.Recv != nil && len(fi.Decl.Recv.List) > 0 && isSel {
